@@ -130,6 +130,10 @@ def request(channel, name, ns=M.TNS):
     if channel == 'msgpack':
         import msgpack
         return dict(method='POST', path='/', qs='', body=msgpack.packb({name: {}}), content_type='application/x-msgpack')
+    if channel == 'msgpackrpc-odd':
+        # the name field of a msgpack-rpc request holding something that is not a name: `name` is the packed object itself
+        import msgpack
+        return dict(method='POST', path='/', qs='', body=msgpack.packb([0, 1, name, []], use_bin_type=True), content_type='application/x-msgpack')
     return M.encode_request(kind if kind != 'msgpack' else 'msgpack', name, [])
 
 
@@ -174,6 +178,10 @@ def run_app(R, seed, aid, tier):
                 for name in sorted(registered):
                     for nm in [x for x in near_misses(name, registered) if not (kind in ('xml', 'soap11', 'soap12') and not x.isidentifier())][: 4 if tier == 'quick' else 20]:
                         one(R, wsgi, calls, channel, nm, M.TNS, None, repro, None, pi)
+                    if channel == 'msgpackrpc':
+                        for odd in ([name], [name, name], [], {name: 1}, name.encode() + b'\xff', [[name]], 5, None, True, [name.encode()]):
+                            R.count('odd_name_kinds')
+                            one(R, wsgi, calls, 'msgpackrpc-odd', odd, M.TNS, None, repro, None, pi)
                     if kind in ('xml', 'soap11', 'soap12'):
                         one(R, wsgi, calls, channel, name, 'urn:vf:other', None, repro, None, pi)
                         one(R, wsgi, calls, channel, name, M.TNS + 'x', None, repro, None, pi)
@@ -230,7 +238,7 @@ def run_patterns(R, seed, aid, tier, spec, registered, perms, rng):
 
 
 def one(R, wsgi, calls, channel, name, ns, owner, repro, baseline, pi):
-    kind = channel.replace('-bkeys', '')
+    kind = channel.replace('-bkeys', '').replace('-odd', '')
     if kind == 'httppattern':
         kind = 'httprpc-json'
     try:
@@ -242,7 +250,9 @@ def one(R, wsgi, calls, channel, name, ns, owner, repro, baseline, pi):
     del calls[:]
     R.evaluations += 1
     w = drive.call_wsgi(wsgi, env, inp)
-    case = dict(repro, name=name, ns=ns)
+    case = dict(repro, name=name if isinstance(name, str) else repr(name), ns=ns)
+    if not isinstance(name, str):
+        name = repr(name)
     if w.exc is not None:
         if owner is None:
             R.skip('an exception escaped on an unregistered name (C10 matter)')
